@@ -3,9 +3,9 @@ prop(
     quick=[("native", 16)],
     thorough=[("native", 16), ("asan", 8), ("valgrind", 5)],
     level="exploration",
-    min_evals={"quick": 2_000_000, "thorough": 8_000_000},
+    min_evals={"quick": 3_500_000, "thorough": 100_000_000},
     rule=(
-        "objects are built with the library's own builders under a pool signer from generated, profile-conforming inputs, 16 kinds in rotation "
+        "objects are built with the library's own builders under a pool signer from generated, profile-conforming inputs, 16 kinds of directly generated inputs plus 10 slots of inputs taken from decoded foreign objects (below) in rotation "
         "(TA / CA / EE / detached-EE / router certificates, CRL, manifest, ROA (twice), ASPA, CA CSR, identity TA / EE certificates, SignedMessage, "
         "ProvisioningCms, PublicationCms): serials from a boundary class list (0, 1, 127, 128, 255, 256, 2^63, 2^64-1, 2^158, 2^159-1, leading octet "
         ">=0x80 / <0x80 at every length, inner zero octets, random), whole-second times with years dense around 1949/1950 and 2049/2050 plus 1, 999, "
@@ -26,7 +26,25 @@ prop(
         "INTEGER form, ASN.1 time type of both validity ends, name default / custom, missing / inherit / blocks per family or list-size classes, "
         "API path), one class per (kind, state, twin it was applied to), plus one fine class per field (kind, field, class: e.g. serial 2^159-1, window utc/gen with evaluation at not_after, v6 shape "
         "'few+0+max', ROA max-length mix, CRL entry serial classes); distinct_nontrivial counts those classes, every object is non-trivial (it is "
-        "built, decoded, validated and compared)."
+        "built, decoded, validated and compared). "
+        "Inputs taken from decoded foreign objects (re-issue flows, 10 of 26 slots): an encoder of the harness (own DER writer, signatures made with aws-lc directly; nothing of rpki-rs or bcder) writes a "
+        "TA / CA / EE certificate, a CRL, a manifest / ROA / ASPA with its EE certificate, or a PKCS#10 request in a spelling drawn from the legal ones "
+        "(0-3 deviations or all 14 at once: sha256WithRSAEncryption AlgorithmIdentifier without NULL parameters, rsaEncryption in the SubjectPublicKeyInfo without NULL, GeneralizedTime for years before 2050, "
+        "extensions in reverse order, explicit critical FALSE, a CPS policy qualifier, an unknown non-critical extension, SIA entries reversed with an additional https entry, SHA-256 with NULL, "
+        "sha256WithRSAEncryption / absent parameters in SignerInfo, explicit eContent version, CRL extensions swapped, explicit empty revocation list; names as PrintableString CN (key-derived, short, "
+        ">127 octets), CN + serialNumber in one or two RDNs, UTF8String CN, O + CN; empty Basic Constraints or a router EKU on some EE certificates; both certificate policies; signed objects DER + strict "
+        "decoding, DER + relaxed decoding, BER indefinite-length outer wrapper + relaxed decoding); the library's decoder takes it in and what its accessors hand out is fed to every builder entry point "
+        "that accepts such a value: TbsCertList::new / set_signature / set_issuer / set_revoked_certs / set_authority_key_identifier with the old CRL's signature(), issuer(), revoked_certs().iter() "
+        "(collected or as the iterator itself), key identifier; TbsCert by clone (unchanged, or set_serial_number + set_validity) and TbsCert::new + every setter from the accessors of the decoded "
+        "certificate (names, key, key usage, basic_ca, key identifiers, EKU, six URIs, three resource sets, overclaim) — also for the EE certificate embedded in a decoded signed object; "
+        "SignedObjectBuilder fed from the decoded EE certificate (URIs, issuer / subject names, signing time) with ManifestContent by clone or ManifestContent::new(.., content.iter()), RoaBuilder fed from "
+        "v4_addrs().iter() / v6_addrs().iter() or from iter() (friendly form), AspaBuilder from provider_as_set().iter() or to_set(); a decoded CA certificate as issuer (its subject(), "
+        "subject_key_identifier(), ca_repository().join, rpki_manifest() into a CRL and into a manifest validated under the ResourceCert obtained from it); a decoded CSR into TbsCert::new + SIA setters, "
+        "the SIA URIs of a decoded CA certificate into Csr::construct_rpki_ca; a PublicKey and a Validity decoded from foreign encodings into IdCert::new_ee. The object built from them gets the same "
+        "evaluations (strict decoder, validator under the same validator and strictness under which the foreign original was accepted and at an instant inside the new window — left out, and counted, when "
+        "the original was not valid —, byte-identical re-encoding, accessor table rows incl. the states). A foreign object the library refuses is counted (reissue:foreign_rejected) and nothing is derived "
+        "from it. Case signatures of these flows: (kind, entry-point path, spelling deviations (all of them if at most two, else their number)), one class per (kind, deviation), (kind, how written and "
+        "decoded), plus the field classes of the foreign certificate and of the new serial / window."
     ),
     assumptions=[
         "times are whole seconds with years 1..9999 (X.509 times have no fractions; a Time with nanoseconds is outside the profile)",
@@ -38,13 +56,21 @@ prop(
         "their re-encoding leg is decided on the strictly decoded SignedMessage; what the relaxed twin's to_bytes() does is recorded as an observation",
         "no BGPsec CSR is generated: the library has no builder for it",
         "CSR builders return bytes only: the table compares the decoded CSR with the CSR decoded from its re-encoding and with the builder inputs",
+        "the annotation of an RpkiSignatureAlgorithm value (were NULL parameters present where it was decoded from — it takes part in == and Debug) is not treated as an answer about the object when the "
+        "value came from a decoded foreign object: the library documents that the identifiers it writes always carry NULL whatever the value says, so a built CRL holding 'no parameters' and its "
+        "decoded twin holding 'parameters' are compared through what the value means and writes (signing_algorithm, both x509 encoders, the CMS encoder); the difference of the annotation is counted "
+        "(reissue:sigalg_annotation_differs). For directly generated inputs the Debug / == rows stay in force",
+        "values that carry the mode they were captured in (Name, TbsCert by clone) and come from an object decoded in relaxed mode make TbsCert::into_cert hit bcder's assertion against mixing modes, "
+        "although their octets are DER; whether such a value still is a profile-conforming builder input is left open: recorded as observation and note (reissue:relaxed_mode_tagged_input), not judged. "
+        "Every other input from a relaxed-decoded object (URIs, serials, times, key identifiers, manifest content, prefixes, providers) is judged",
+        "foreign objects use canonical RFC 3779 encodings and whole-second times; a foreign object the library's decoder refuses is not a subject of C05",
         "RSA signing keys come from a cached pool of 4 keys (one P-256 public key for router certificates); key material is not a subject of the property",
     ],
     level_text=(
-        "Runtime monitoring of the real builders, decoders and validators over generated builder inputs (quick 32 000 objects, thorough 480 000, "
-        "16 object kinds), with three oracles per object: acceptance by the library's own strict decoder and validator inside the validity window, "
+        "Runtime monitoring of the real builders, decoders and validators over generated builder inputs and over builder inputs taken from decoded foreign objects written by an independent encoder in every legal spelling (quick 52 000 objects, thorough 1 500 000, "
+        "16 object kinds plus 14 re-issue flows), with three oracles per object: acceptance by the library's own strict decoder and validator inside the validity window, "
         "byte-identical re-encoding, and a hand-written table of every public accessor / iterator / nested encoder of the type evaluated on the built "
-        "value and on its decoded twin under catch_unwind and compared row by row, then again with one twin cloned / re-decoded / serde-round-tripped / (CRL) serial-cached or stored in a caching CrlStore, before and after. ASan repeats 24 000 objects, valgrind memcheck 80 objects (every kind five times) including "
+        "value and on its decoded twin under catch_unwind and compared row by row, then again with one twin cloned / re-decoded / serde-round-tripped / (CRL) serial-cached or stored in a caching CrlStore, before and after. ASan repeats 32 000 objects, valgrind memcheck 130 objects (every slot five times) including "
         "the aws-lc signing and verification paths. This is the level the property calls for: it quantifies over builder inputs, and both the "
         "'accepted by its own decoder' and the 'same answers' parts are decidable per execution."
     ),
@@ -52,6 +78,6 @@ prop(
         "Sampled, not exhaustive; accessor tables are hand-written from the public API of this revision (an accessor added later is not covered until "
         "its row is added); internal captured layouts are judged only through public accessors and encoders."
     ),
-    technique="runtime oracle (decode + validate + re-encode + accessor tables built vs decoded) over generated builder inputs; ASan, valgrind",
+    technique="runtime oracle (decode + validate + re-encode + accessor tables built vs decoded) over generated builder inputs and over inputs decoded from foreign objects of an independent encoder (re-issue flows); ASan, valgrind",
     design_ref="DESIGN.md §4 C05",
 )
